@@ -465,9 +465,52 @@ func (c *Ctx) Unreachable(site ssa.Instruction, label string, when ...FM) bool {
 		c.violate(site, nil, label, fmt.Sprintf("%s: the refusing condition is not tested anywhere in %s", label, shortName(fn)), nil)
 		return false
 	}
-	for _, b := range arms {
-		if b == site.Block() || reachableBlocks(b)[site.Block()] {
-			c.violate(site, nil, label, fmt.Sprintf("%s: %s is reachable from the arm where the refusing condition holds (block at %s)", label, instrStr(site), c.P.Pos(posOf(b.Instrs[0]))), nil)
+	// loop headers enclosing the site: blocks that dominate the site's block and are reachable from it
+	sb := site.Block()
+	fromSite := reachableBlocks(sb)
+	var headers []*ssa.BasicBlock
+	for _, b := range fn.Blocks {
+		if b != sb && b.Dominates(sb) && fromSite[b] {
+			headers = append(headers, b)
+		}
+	}
+	for _, a := range arms {
+		// within one iteration: a path from the refusing arm that re-enters an enclosing loop header
+		// (which also encloses the arm) starts a new iteration with new values and does not count
+		isHeader := false
+		for _, h := range headers {
+			if h == a {
+				isHeader = true
+			}
+		}
+		if isHeader {
+			continue // the refusing edge leads straight to the next iteration
+		}
+		blocked := map[*ssa.BasicBlock]bool{}
+		for _, h := range headers {
+			if h != a && h.Dominates(a) {
+				blocked[h] = true
+			}
+		}
+		seen := map[*ssa.BasicBlock]bool{}
+		var reach func(x *ssa.BasicBlock) bool
+		reach = func(x *ssa.BasicBlock) bool {
+			if x == sb {
+				return true
+			}
+			if seen[x] || blocked[x] || blockNoReturn(x) {
+				return false
+			}
+			seen[x] = true
+			for _, s := range x.Succs {
+				if reach(s) {
+					return true
+				}
+			}
+			return false
+		}
+		if reach(a) {
+			c.violate(site, nil, label, fmt.Sprintf("%s: %s is reachable from the arm where the refusing condition holds (block at %s)", label, instrStr(site), c.P.Pos(posOf(a.Instrs[0]))), nil)
 			return false
 		}
 	}
